@@ -26,4 +26,19 @@ def childFile (sel : Nat → Nat) (p : Parent) (c : Nat) : List Val :=
 /-- register `r` of class `c` as the new goroutine reads it -/
 def childReg (sel : Nat → Nat) (p : Parent) (c r : Nat) : Option Val := (childFile sel p c)[r]?
 
+/-! ## What a receive leaves in its value register
+
+`reflect.Select` / `Value.Recv` hand back `(v, ok)`; on a closed channel `v` is the zero value and
+`ok = false`. The VM stores `v` into the register of the receive (`vm.setFromReflectValue`). Modelled
+with the guard as a parameter: `guardOk = false` is the code (store whatever `ok` is), `guardOk =
+true` a VM that stores only when `ok` (the register keeps what it held). -/
+
+/-- the value register after a receive that gave `(v, ok)`, `old` being its content before -/
+def recvStore (guardOk : Bool) (old : Int) (recv : Int × Bool) : Int :=
+  if guardOk && !recv.2 then old else recv.1
+
+/-- Go: after `x = <-c` (or a select case `case x = <-c`) `x` is the value sent, or the zero value
+if the channel is closed -/
+def goRecv (recv : Int × Bool) : Int := if recv.2 then recv.1 else 0
+
 end ScriggoV.GoCopy
